@@ -7,4 +7,7 @@ TESTS = [
 ASSUMPTIONS = [
     "NFSv4.0: the reference model mirrors the documented laziness of the server: expired leases and unused open-owners are reclaimed by the next call that enters the server; closes that belong to a request are carried out when that request returns (so equality of open counts is asserted when no request is in flight, a lower bound otherwise)",
     "NFSv4.0: random numbers handed to the program are distinct (counter based); file names a, b, c in the root directory only; OPEN claims NULL and PREVIOUS (delegation claims only as rejected requests)",
+    "NFSv4.0: every oracle of the simulator (C14 lock probes, C18 accounting, C19 replay, C20 lock table) is fatal in every test function of the package, whatever profile met it; the failure message names the property the oracle belongs to. The profiles only differ in what they make likely",
+    "NFSv4.0: 'state IDs are honoured only for the client they were issued for' cannot be observed in NFSv4.0: READ/WRITE/SETATTR/CLOSE/LOCK/LOCKU/OPEN_CONFIRM/OPEN_DOWNGRADE carry no client ID, the state ID is the only thing that names the client (RFC 7530 section 9.1.4: state IDs are unique across all clients of a server instance; the checks of 9.1.4.4 have no per-caller step), so a state ID sent by another client simulator is indistinguishable from the owner using it and is honoured (nfs40_program.go getOpenOwnerFileByStateID / getLockOwnerFileByStateID look the state up by its 'other' field only). What is asserted instead: a state ID of a client whose lease expired or that re-registered is rejected; a lock-owner's client ID must equal the open-owner's (NFS4ERR_INVAL); a foreign client ID in LOCKT/RELEASE_LOCKOWNER selects that client's owners",
+    "NFSv4.0 faults: OPEN, READ, WRITE, SETATTR carry generated one-shot faults of the file system below the server (root directory handed to the program fails VirtualOpenChild before calling the real directory, or after it - then it closes the file it had opened, a created file stays created; the file allocator fails, so the real directory reports EIO and logs once; VirtualOpenSelf fails before the real file is asked; leaf I/O fails before the real file is asked; EIO/EACCES/EROFS/ENXIO). A fault belongs to the request, not to its retransmissions",
 ]
